@@ -106,7 +106,73 @@ def stage_params(kind, st):
     return kw
 
 
+# ----------------------------------------------------------------------------- input presentations
+X_PRESENTATIONS = ["int64", "int32", "float32", "fortran", "list", "noncontiguous"]
+Y_PRESENTATIONS = ["int64", "int32", "float32", "list", "1d", "1d_int64", "fortran"]
+
+
+def present_X(X, how):
+    """the same VALUES as the float64 C-ordered array X, handed over differently; None if `how` cannot
+    represent them exactly."""
+    if how is None:
+        return X
+    if how in ("int64", "int32"):
+        return X.astype(how) if np.all(X == np.round(X)) and np.abs(X).max() < 2 ** 30 else None
+    if how == "float32":
+        X32 = X.astype(np.float32)
+        return X32 if np.all(X32.astype(float) == X) else None
+    if how == "fortran":
+        return np.asfortranarray(X)
+    if how == "list":
+        return X.tolist()
+    if how == "noncontiguous":           # a strided view into a larger array
+        big = np.zeros((2 * X.shape[0], 2 * X.shape[1]))
+        big[::2, ::2] = X
+        return big[::2, ::2]
+    raise ValueError(how)
+
+
+def present_y(Y, how):
+    if how is None or Y is None:
+        return Y
+    if how in ("int64", "int32"):
+        return Y.astype(how) if np.all(Y == np.round(Y)) and np.abs(Y).max() < 2 ** 30 else None
+    if how == "float32":
+        Y32 = Y.astype(np.float32)
+        return Y32 if np.all(Y32.astype(float) == Y) else None
+    if how == "list":
+        return Y.tolist()
+    if how == "1d":
+        return Y[:, 0].copy() if Y.shape[1] == 1 else None
+    if how == "1d_int64":
+        return Y[:, 0].astype("int64") if Y.shape[1] == 1 and np.all(Y == np.round(Y)) else None
+    if how == "fortran":
+        return np.asfortranarray(Y)
+    raise ValueError(how)
+
+
+def gen_presentation(rng, case):
+    """a presentation (X how, y how) that represents every segment of the history exactly, or None."""
+    pcov = case["kind"] == "pcovcur"
+    for _ in range(12):
+        px = rng.choice(X_PRESENTATIONS + [None, None])
+        py = rng.choice(Y_PRESENTATIONS + [None]) if pcov else None
+        if pcov and rng.random() < 0.5:
+            py = rng.choice(["int64", "int32", "1d_int64"])       # integer-typed targets (labels, counts)
+        if px is None and py is None:
+            continue
+        ok = True
+        for seg in case["segments"]:
+            X = np.array(seg["X"], dtype=float)
+            Y = None if seg["y"] is None else np.array(seg["y"], dtype=float)
+            ok = ok and present_X(X, px) is not None and (py is None or present_y(Y, py) is not None)
+        if ok:
+            return dict(X=px, y=py)
+    return None
+
+
 def run_impl(case):
+    pres = case.get("present") or {}
     sel = S.make_selector(case["kind"], case["axis"], **stage_params(case["kind"], case["segments"][0]["stages"][0]))
     rec = Recorder(sel)
     pir = F.PiRecorder(sel)
@@ -116,6 +182,8 @@ def run_impl(case):
         for seg in case["segments"]:
             X = np.array(seg["X"], dtype=float)
             Y = None if seg["y"] is None else np.array(seg["y"], dtype=float)
+            nrows = len(X)
+            X, Y = present_X(X, pres.get("X")), present_y(Y, pres.get("y"))
             so = dict(stages=[])
             out["segments"].append(so)
             p0, r0 = len(rec.calls), len(pir.calls)
@@ -134,7 +202,7 @@ def run_impl(case):
                 so["stages"].append(dict(
                     sel=[int(i) for i in sel.selected_idx_], nsel=int(sel.n_selected_),
                     X_current=np.array(sel.X_current_, dtype=float).tolist(),
-                    y_current=None if yc is None else np.array(yc, dtype=float).reshape(len(X), -1).tolist(),
+                    y_current=None if yc is None else np.array(yc, dtype=float).reshape(nrows, -1).tolist(),
                     refresh=[[float(x) for x in v] for v in pir.calls[rs:]]))
             so["sel"] = [int(i) for i in sel.selected_idx_]
             so["presented"] = [[float(x) for x in v] for v in rec.calls[p0:]]
@@ -412,7 +480,7 @@ def twin_case(case):
     return None, None
 
 
-def compare_twin(case, res, twin, res2, what, gap_gate=1e-6):
+def compare_twin(case, res, twin, res2, what, gap_gate=1e-6, pitol=1e-6, xtol=1e-7, ytol=1e-7):
     """(message or None, info): importance vectors at every un-gated refresh, selections (unless a near
     tie decides) and exposed residuals of the two histories coincide."""
     info = dict(compared_refreshes=0, gap_skipped=0, tie_skipped=0, segments=0)
@@ -453,7 +521,7 @@ def compare_twin(case, res, twin, res2, what, gap_gate=1e-6):
                     break
                 info["compared_refreshes"] += 1
                 d = float(np.abs(np.array(pa) - np.array(pb)).max())
-                if d > 1e-6:
+                if d > pitol:
                     return "%s: fit %d: the importance vectors after %d selections differ by %.3g" % (
                         what, si, tr, d), info
             if not ok:
@@ -463,7 +531,7 @@ def compare_twin(case, res, twin, res2, what, gap_gate=1e-6):
                 # chosen items is decided by rounding; anything else is a different selection rule
                 pv = so["presented"][tdiff] if tdiff < len(so["presented"]) else None
                 u, v = sel[tdiff], sel2[tdiff]
-                if pv is not None and abs(pv[u] - pv[v]) <= 2e-6:     # the vectors were compared to 1e-6
+                if pv is not None and abs(pv[u] - pv[v]) <= 2 * pitol:     # the vectors were compared to pitol
                     info["tie_skipped"] += 1
                     ok = False
                     break
@@ -472,11 +540,61 @@ def compare_twin(case, res, twin, res2, what, gap_gate=1e-6):
             Xa, Xb = np.array(a["X_current"]), np.array(b["X_current"])
             if transpose:
                 Xb = Xb.T
-            if np.abs(Xa - Xb).max() > 1e-7 * sx:
+            if np.abs(Xa - Xb).max() > xtol * sx:
                 return "%s: fit %d: the exposed residuals differ by %.3g (max|X| %.3g)" % (
                     what, si, np.abs(Xa - Xb).max(), sx), info
+            if a.get("y_current") is not None and b.get("y_current") is not None and not transpose:
+                ya, yb = np.array(a["y_current"]), np.array(b["y_current"])
+                sy = max(np.abs(np.array(seg["y"], dtype=float)).max(), 1e-300)
+                if ya.shape != yb.shape or np.abs(ya - yb).max() > ytol * sy * max(
+                        1.0, np.linalg.cond(np.array(seg["X"], dtype=float))):
+                    return "%s: fit %d: the unexplained y differs by %.3g (max|y| %.3g)" % (
+                        what, si, np.abs(ya - yb).max() if ya.shape == yb.shape else float("nan"), sy), info
         info["segments"] += ok
     return None, info
+
+
+def compare_presentation(case, res, case2, res2):
+    """the same values handed over as another dtype / container / memory layout must give what the
+    float64 C-ordered presentation gives (which is tied to the model).  float32 X is computed in single
+    precision by the clean code (X_current_ keeps the dtype): compared with single-precision tolerances."""
+    pres = case2["present"]
+    what = "presentation X=%s y=%s vs float64 arrays" % (pres.get("X") or "float64", pres.get("y") or "float64")
+    if pres.get("X") == "float32":
+        # the clean code computes in single precision then (X_current_ keeps the dtype; the default
+        # tolerance 1e-12 is below its rounding unit), so only what single precision determines is
+        # compared: no exception, valid distinct selections, and the importance vector of the cold start
+        # (computed from the exactly representable X) when the eigenvalue gap is large
+        info = dict(compared_refreshes=0, gap_skipped=0, tie_skipped=0, segments=0)
+        if "error" in res2:
+            return (None if "error" in res else what + ": fit raised " + res2["error"]), info
+        if "error" in res:
+            return None, info
+        for seg, so, so2 in zip(case["segments"], res["segments"], res2["segments"]):
+            n_items = len(seg["X"]) if case["axis"] == 0 else len(seg["X"][0])
+            sel2 = so2["sel"]
+            if len(sel2) != len(so["sel"]) or len(set(sel2)) != len(sel2) or any(i < 0 or i >= n_items for i in sel2):
+                return "%s: selected_idx_ %s is not %d distinct valid indices" % (what, sel2, len(so["sel"])), info
+            st = seg["stages"][0]
+            X = np.array(seg["X"], dtype=float)
+            Y = None if seg["y"] is None else np.array(seg["y"], dtype=float)
+            lam = eig_hints(case, st, X, Y)["lam"]
+            k = st["k"]
+            gap = (lam[k - 1] - lam[k]) / max(abs(lam[0]), 1e-300) if k < len(lam) else 1.0
+            if gap < 1e-2 or (case["kind"] == "pcovcur" and case["axis"] == 1 and st["mixing"] < 1):
+                info["gap_skipped"] += 1       # (C^-1/2 in single-precision data: not compared)
+                continue
+            info["compared_refreshes"] += 1
+            d = float(np.abs(np.array(so["stages"][0]["refresh"][0]) - np.array(so2["stages"][0]["refresh"][0])).max())
+            if d > 2e-3:
+                return "%s: the importance vectors of the cold start differ by %.3g" % (what, d), info
+            info["segments"] += 1
+        return None, info
+    if "error" not in res2:
+        msg, _ = oracle(case, res2)            # the property itself, on the other presentation
+        if msg:
+            return what + ": " + msg, dict(compared_refreshes=0, gap_skipped=0, tie_skipped=0, segments=0)
+    return compare_twin(case, res, case2, res2, what)
 
 
 # ----------------------------------------------------------------------------- Coq text
